@@ -308,7 +308,16 @@ def main():
     # ---- evidence
     known_labels = set(v['label'] for _, v in known_hits)
     # obligations of listed known findings are reported separately (coverage.known_findings_hit), not as obligations of this run
-    proof_obls = [x for r in results if r['mode'] == 'proof' for x in r['results'] if 'VACUITY_CANARY' not in x['desc'] and not (x.get('label') in known_labels and x['status'] != 'SUCCESS')]
+    all_labels = {}
+    for pu in units_used:
+        all_labels.update(pu['labels'])
+
+    def foreign(x):
+        # a labelled clause that serves other properties only (e.g. the C09 scoping clause inside a harness that C12
+        # runs for its memory-safety obligations) is not an obligation of THIS property
+        pr = all_labels.get(x.get('label')) if x.get('label') else None
+        return bool(pr) and prop not in pr
+    proof_obls = [x for r in results if r['mode'] == 'proof' for x in r['results'] if 'VACUITY_CANARY' not in x['desc'] and not (x.get('label') in known_labels and x['status'] != 'SUCCESS') and not foreign(x)]
     n_obl = len(proof_obls)      # canaries are assertions that must FAIL; they are not obligations
     n_ok = len([x for x in proof_obls if x['status'] == 'SUCCESS'])
     n_canary = sum(len([x for x in r['results'] if 'VACUITY_CANARY' in x['desc']]) for r in results if r['mode'] == 'proof')
@@ -356,7 +365,11 @@ def main():
         wall_s=round(time.time() - t_start, 1),
         violations=len(out_viol),
     )
-    with open(os.path.join(ROOT, 'evidence', prop + '.json'), 'w') as f:
+    # debugging runs (--only) and runs against a deliberately changed tree (VERIF_EVIDENCE_DIR set by tools/mutant_check.sh)
+    # do not overwrite the evidence of the last full run
+    evdir = os.environ.get('VERIF_EVIDENCE_DIR') or (os.path.join(work, 'evidence') if args.only else os.path.join(ROOT, 'evidence'))
+    os.makedirs(evdir, exist_ok=True)
+    with open(os.path.join(evdir, prop + '.json'), 'w') as f:
         json.dump(ev, f, indent=1, default=str)
 
     for r in results:
